@@ -153,8 +153,9 @@ def oracle_doc(doc: Dict[str, Any], fmt: str, obs: Dict[str, Any]) -> Optional[D
             return {'class': 'verbatim-' + kind, 'what': '%s block not reproduced character for character: expected %r got %r'
                     % (kind, w, g)}
     # fields
-    for kind, name, body, ty in doc['fields']:
-        bt = G.inline_tokens(body)
+    for f in doc['fields']:
+        kind, name, body, ty = f[:4]
+        bt = G.field_tokens(f)
         if kind in ('ivar', 'cvar', 'var'):
             a = (obs.get('attrs') or {}).get(name)
             if a is None:
